@@ -503,14 +503,26 @@ func (el *EventList) Verify(acc *Accumulator) error {
 	if count == 0 {
 		return nil
 	}
+	// values first: hashing reads them
+	for i, event := range events {
+		if event == nil || event.E == nil || event.E.Sign() <= 0 {
+			return errors.Errorf("event %d has no positive value", i)
+		}
+	}
+	// The list has to end in the event this accumulator commits to - also when the consistency of the list itself was
+	// established before (a decoded list computes its own parent hashes, a list verified against one accumulator says
+	// nothing about another): the flag below only saves recomputing the chain.
+	if err = events[count-1].hashEquals(acc.EventHash); err != nil {
+		return errors.WrapPrefix(err, "update chain has wrong hash", 0)
+	}
 	if el.verified {
 		if el.validationErr != nil {
 			return el.validationErr
 		}
+		if err = events[0].ParentHash.wellFormed(); err != nil {
+			return errors.WrapPrefix(err, "first event has malformed parent hash", 0)
+		}
 		return nil
-	}
-	if err = events[count-1].hashEquals(acc.EventHash); err != nil {
-		return errors.WrapPrefix(err, "update chain has wrong hash", 0)
 	}
 
 	// The bytes hashed for an event are index || parent hash || value, without length framing, and the parent hash of
@@ -525,10 +537,6 @@ func (el *EventList) Verify(acc *Accumulator) error {
 	// Verify the hashes of the chain, computing the product of all revoked attributes along the way
 	startIndex := events[0].Index
 	for i, event := range events {
-		if event.E == nil || event.E.Sign() <= 0 {
-			el.validationErr = errors.Errorf("event %d has no positive value", i)
-			return el.validationErr
-		}
 		if i != 0 {
 			if err = events[i-1].hashEquals(event.ParentHash); err != nil {
 				el.validationErr = errors.WrapPrefix(
